@@ -210,7 +210,12 @@ func (cw *c07World) payload(ctx sdk.Context, name string) ([]byte, int) {
 }
 
 func (cw *c07World) sign(msgs []sdk.Msg, priv cryptotypes.PrivKey, pub cryptotypes.PubKey, accNum, seq uint64, chainID string) []byte {
-	txc := cw.w.Enc.TxConfig
+	return signHookTx(cw.w, msgs, priv, pub, accNum, seq, chainID)
+}
+
+// signHookTx builds and signs (SIGN_MODE_DIRECT) the tx bytes carried as deposit hook data.
+func signHookTx(w *world.L2, msgs []sdk.Msg, priv cryptotypes.PrivKey, pub cryptotypes.PubKey, accNum, seq uint64, chainID string) []byte {
+	txc := w.Enc.TxConfig
 	b := txc.NewTxBuilder()
 	if err := b.SetMsgs(msgs...); err != nil {
 		panic(err)
